@@ -125,3 +125,15 @@ Lemma tie_hidden_rule c r :
 Proof. unfold is_hidden, scan_keeps_file, scan_keeps_dir, check_keeps_file, check_keeps_dir. repeat split; reflexivity. Qed.
 Lemma tie_totals_row n : (1 <? n) = text_totals_row n /\ (1 <? n) = md_totals_row n.
 Proof. unfold text_totals_row, md_totals_row. split; lia. Qed.
+
+From Verif Require Import GenScan Cache.
+(* the version gate of the cache *)
+Lemma tie_usable_cache v es :
+  (exists x, usable_cache (CDoc v es) = Some x) <-> cache_version_accepted true v tool_version = true.
+Proof.
+  unfold usable_cache, cache_version_accepted. cbn [andb]. destruct (pystr_eqb v tool_version); split; intros H.
+  - reflexivity.
+  - eexists. reflexivity.
+  - destruct H as [x H]. discriminate H.
+  - discriminate H.
+Qed.
